@@ -3,7 +3,7 @@
    - the body level of a Grid term is C15's round-trip theorem (Codec/CombRoundTrip.all_terms). *)
 From Coq Require Import ZArith List Ascii Bool NArith Lia.
 From Cspuz Require Import Lib.PyErr Codec.Comb Codec.CombWf Codec.CombBasics Codec.CombLeaf Codec.CombRoundTrip
-  Codec.Legacy Codec.Url Codec.UrlProofs Codec.Puzzles.
+  Codec.Legacy Codec.Url Codec.UrlProofs Codec.Puzzles Codec.SerChars Codec.Yajilin.
 Import ListNotations.
 Local Open Scope Z_scope.
 
@@ -43,6 +43,58 @@ Proof.
     rewrite (deserialize_url_make cu (sw_comb sw) default_prefix (sw_puzzle sw) h w body _ _ _ (Some pb')
                default_prefix_valid Hn Hb Hh Hw Hal Hde).
     reflexivity.
+Qed.
+
+(* the body has no newline *)
+Lemma serialize_body_good cu c pb h w body :
+  cust_good (cu_env cu h w) -> nl_free c = true ->
+  serialize_problem_cu cu c pb h w = Ok body -> valid_body body.
+Proof.
+  intros Hcu Hnl H. unfold serialize_problem_cu in H.
+  destruct (ser (cu_env cu h w) c (VList [pb]) 0) as [[[k s]|]|] eqn:E; try discriminate.
+  inversion H; subst. apply good_valid_body. eapply ser_good; eauto.
+Qed.
+
+Lemma no_custom_cu_good h w : cust_good (cu_env no_custom h w).
+Proof. exact (no_custom_good h w). Qed.
+
+Lemma yajilin_cu_good h w : cust_good (cu_env yajilin_custom h w).
+Proof.
+  intros k data idx n s H. simpl in H. unfold yajilin_ser in H.
+  destruct (py_items data) as [l|]; try discriminate. simpl in H.
+  destruct (Nat.leb (length l) idx); try discriminate.
+  destruct (nth_res l idx) as [v|]; try discriminate. simpl in H.
+  destruct (pv_eqb v (VStr s_dotdot)); try discriminate.
+  destruct (pv_eqb v (VStr s_qq)).
+  { inversion H; subst. repeat constructor. }
+  destruct v as [| s0 | | |]; try discriminate. destruct s0 as [|c t]; try discriminate.
+  assert (Hd : forall d, dir_code c = Ok d -> 1 <= d <= 4).
+  { unfold dir_code. intros d. repeat (match goal with |- context [ascii_eqb ?a ?b] => destruct (ascii_eqb a b) end);
+      intros E; inversion E; lia. }
+  destruct (dir_code c) as [dir|] eqn:Ed; try discriminate. simpl in H. specialize (Hd dir eq_refl).
+  destruct (py_int t 10) as [nn|]; try discriminate. simpl in H.
+  destruct ((0 <=? nn) && (nn <? 16)) eqn:E1.
+  { apply andb_true_iff in E1 as [E1 _]. apply Z.leb_le in E1. inversion H; subst.
+    apply good_app; [apply py_str_int_good; lia|apply to_base16_good; lia]. }
+  destruct ((16 <=? nn) && (nn <? 256)) eqn:E2.
+  { apply andb_true_iff in E2 as [E2 _]. apply Z.leb_le in E2. inversion H; subst.
+    apply good_app; [apply py_str_int_good; lia|apply to_base16_good; lia]. }
+  destruct ((256 <=? nn) && (nn <? 4096)) eqn:E3; try discriminate.
+  apply andb_true_iff in E3 as [E3 _]. apply Z.leb_le in E3. inversion H; subst.
+  constructor; [reflexivity|]. apply good_app; [apply py_str_int_good; lia|apply to_base16_good; lia].
+Qed.
+
+(* URL level without the newline hypothesis *)
+Theorem url_level_roundtrip_nl cu sw dw h w pb pb' body :
+  wrappers_consistent sw dw -> 0 <= h -> 0 <= w ->
+  cust_good (cu_env cu h w) -> nl_free (sw_comb sw) = true ->
+  serialize_problem_cu cu (sw_comb sw) pb h w = Ok body ->
+  deserialize_problem_cu cu (sw_comb sw) body h w = Ok (Some pb') ->
+  run_ser_sized cu sw h w pb = Ok (make_url default_prefix (sw_puzzle sw) h w body) /\
+  run_de cu dw (make_url default_prefix (sw_puzzle sw) h w body) = Ok (Some (sized dw h w pb')).
+Proof.
+  intros Hc Hh Hw Hcu Hnl Hser Hde.
+  eapply url_level_roundtrip; eauto. eapply serialize_body_good; eauto.
 Qed.
 
 (* serialize_<p>(problem) takes the size from the problem *)
@@ -126,11 +178,14 @@ Theorem grid_url_roundtrip sw dw c1 h w pb rows body :
   sw_comb sw = Grid c1 None -> wf (Grid c1 None) = true -> rooms_free c1 = true -> cell_comb c1 = true ->
   wrappers_consistent sw dw -> dw_return_size dw = false ->
   1 <= h -> 1 <= w -> grid_shape h w pb rows ->
-  serialize_problem_cu no_custom (sw_comb sw) pb h w = Ok body -> valid_body body ->
+  nl_free c1 = true ->
+  serialize_problem_cu no_custom (sw_comb sw) pb h w = Ok body ->
   run_ser_problem no_custom sw pb = Ok (make_url default_prefix (sw_puzzle sw) h w body) /\
   run_de no_custom dw (make_url default_prefix (sw_puzzle sw) h w body) = Ok (Some pb).
 Proof.
-  intros Hc Hwf Hrf Hcell Hcons Hrs Hh Hw Hshape Hser Hb.
+  intros Hc Hwf Hrf Hcell Hcons Hrs Hh Hw Hshape Hnl Hser.
+  assert (Hb : valid_body body).
+  { eapply serialize_body_good; [apply no_custom_cu_good| |exact Hser]. rewrite Hc. exact Hnl. }
   assert (Hde : deserialize_problem_cu no_custom (sw_comb sw) body h w = Ok (Some pb)).
   { rewrite Hc in *. apply grid_body_roundtrip; auto. eapply accepts_grid_cells; eauto. }
   destruct (url_level_roundtrip no_custom sw dw h w pb pb body Hcons) as [H1 H2]; auto; try lia.
@@ -142,4 +197,54 @@ Proof.
     erewrite run_ser_problem_sized by reflexivity.
     simpl length in Hlen |- *. rewrite map_length. rewrite Hlen, Hw0. exact H1.
   - rewrite H2. unfold sized. rewrite Hrs. reflexivity.
+Qed.
+
+(* ------------------------------------------------------------------ room-based modules, given C15's room statements *)
+From Coq Require Import Sorting.Permutation.
+
+Lemma rooms_url_roundtrip_given sw dw skip allow :
+  rooms_roundtrip_statement ->
+  sw_comb sw = Rooms skip allow -> wrappers_consistent sw dw ->
+  forall h w rs, 1 <= h -> 1 <= w -> valid_rooms h w rs ->
+  exists body rs',
+    run_ser_sized no_custom sw h w (rooms_to_pv rs) = Ok (make_url default_prefix (sw_puzzle sw) h w body) /\
+    canonical_rooms h w rs' /\ rooms_equiv rs rs' /\
+    run_de no_custom dw (make_url default_prefix (sw_puzzle sw) h w body) = Ok (Some (sized dw h w (rooms_to_pv rs'))).
+Proof.
+  intros Hst Hc Hcons h w rs Hh Hw Hv.
+  destruct (Hst h w skip allow rs Hh Hw Hv) as (s & rs' & Hser & Hcan & Heq & Hde).
+  exists s, rs'.
+  destruct (url_level_roundtrip_nl no_custom sw dw h w (rooms_to_pv rs) (rooms_to_pv rs') s Hcons) as [H1 H2];
+    try lia; try (rewrite Hc; first [reflexivity | exact Hser | exact Hde]).
+  - apply no_custom_cu_good.
+  - auto.
+Qed.
+
+Lemma valued_rooms_url_roundtrip_given sw dw vc skip allow :
+  valued_rooms_roundtrip_statement ->
+  sw_comb sw = ValuedRooms vc skip allow -> wrappers_consistent sw dw ->
+  wf (ValuedRooms vc skip allow) = true -> rooms_free vc = true -> cell_comb vc = true -> nl_free vc = true ->
+  forall h w rs vs body, 1 <= h -> 1 <= w -> valid_rooms h w rs -> length vs = length rs ->
+  serialize_problem_cu no_custom (sw_comb sw) (VTup [rooms_to_pv rs; VList vs]) h w = Ok body ->
+  exists ps rs',
+    Permutation ps (combine rs vs) /\ Forall2 (fun p r' => Permutation (fst p) r') ps rs' /\ canonical_rooms h w rs' /\
+    run_ser_sized no_custom sw h w (VTup [rooms_to_pv rs; VList vs]) = Ok (make_url default_prefix (sw_puzzle sw) h w body) /\
+    run_de no_custom dw (make_url default_prefix (sw_puzzle sw) h w body)
+    = Ok (Some (sized dw h w (VTup [rooms_to_pv rs'; VList (map snd ps)]))).
+Proof.
+  intros Hst Hc Hcons Hwf Hrf Hcell Hnl h w rs vs body Hh Hw Hv Hlen Hser.
+  rewrite Hc in Hser.
+  destruct (Hst h w vc skip allow rs vs Hh Hw Hwf Hrf Hv Hlen body Hser) as (ps & rs' & Hp & Hf & Hcan & Hde).
+  { intros vs' _ p. apply accepts_cell. exact Hcell. }
+  exists ps, rs'.
+  assert (HU : run_ser_sized no_custom sw h w (VTup [rooms_to_pv rs; VList vs]) = Ok (make_url default_prefix (sw_puzzle sw) h w body) /\
+               run_de no_custom dw (make_url default_prefix (sw_puzzle sw) h w body)
+               = Ok (Some (sized dw h w (VTup [rooms_to_pv rs'; VList (map snd ps)])))).
+  { apply url_level_roundtrip_nl; auto; try lia.
+    - apply no_custom_cu_good.
+    - rewrite Hc. exact Hnl.
+    - rewrite Hc. exact Hser.
+    - rewrite Hc. exact Hde. }
+  destruct HU as [H1 H2].
+  split; [exact Hp|]. split; [exact Hf|]. split; [exact Hcan|]. split; [exact H1|exact H2].
 Qed.
